@@ -245,5 +245,68 @@ theorem decodeList_encode : (l : List Reply) → WFL l → ∀ (fuel : Nat) (res
       simp [decodeList, encodeList, List.append_assoc, hr, hrs]
 end
 
+/-! ### a whole reply stream -/
+
+/-- decode everything a client read from the connection: a sequence of RESP values; EVERY byte must be consumed (total: each
+    decoded value consumes at least one byte, otherwise the stream is refused).  The serve / rendezvous engines of the driver
+    run this on the raw bytes the server wrote. -/
+def decodeAllReplies (b : Bytes) (acc : List Reply) : Option (List Reply) :=
+  if b.isEmpty then some acc.reverse else
+  match decode (b.length + 2) b with
+  | some (r, rest) => if _h : rest.length < b.length then decodeAllReplies rest (r :: acc) else none
+  | none => none
+termination_by b.length
+
+theorem dec_length_pos (n : Nat) : 0 < (dec n).length :=
+  List.length_pos_iff.2 (dec_ne_nil n)
+
+theorem encInt_length_pos (n : Int) : 0 < (encInt n).length := by
+  cases n with
+  | ofNat k => exact dec_length_pos k
+  | negSucc k => simp [encInt]
+
+mutual
+/-- the decoder's fuel: the encoding of a reply is longer than its size -/
+theorem size_le_encode : (r : Reply) → size r + 2 ≤ (encode r).length
+| .simple b => by simp [size, encode]
+| .err b => by simp [size, encode]
+| .int n => by have := encInt_length_pos n; simp [size, encode]
+| .bulk none => by have := dec_length_pos 1; simp [size, encode]
+| .bulk (some b) => by have := dec_length_pos b.length; simp [size, encode]; omega
+| .arr none => by have := dec_length_pos 1; simp [size, encode]
+| .arr (some l) => by
+    have := dec_length_pos l.length
+    have := sizeList_le_encode l
+    simp [size, encode]; omega
+theorem sizeList_le_encode : (l : List Reply) → sizeList l ≤ (encodeList l).length + 1
+| [] => by simp [sizeList, encodeList]
+| r :: rs => by
+    have := size_le_encode r
+    have := sizeList_le_encode rs
+    simp [sizeList, encodeList]; omega
+end
+
+/-- **a conforming client decodes a written reply stream exactly**: the concatenated encodings of any list of well-framed
+    replies decode to exactly that list, all bytes consumed -/
+theorem decodeAllReplies_encode (rs : List Reply) (h : ∀ r ∈ rs, WF r) (acc : List Reply) :
+    decodeAllReplies (rs.map encode).flatten acc = some (acc.reverse ++ rs) := by
+  induction rs generalizing acc with
+  | nil => rw [decodeAllReplies]; simp
+  | cons r rs ih =>
+    have hlen := size_le_encode r
+    rw [decodeAllReplies]
+    simp only [List.map_cons, List.flatten_cons]
+    have hne : (encode r ++ (rs.map encode).flatten).isEmpty = false := by
+      cases he : encode r with
+      | nil => rw [he] at hlen; simp at hlen
+      | cons a t => rfl
+    rw [hne]
+    simp only [Bool.false_eq_true, if_false]
+    rw [decode_encode r (h r (by simp)) _ _ (by simp; omega)]
+    have hlt : (rs.map encode).flatten.length < (encode r ++ (rs.map encode).flatten).length := by simp; omega
+    simp only [hlt, dite_true]
+    rw [ih (fun x hx => h x (by simp [hx]))]
+    simp
+
 #print axioms decode_encode
 end Resp
